@@ -47,7 +47,7 @@ def request_of(sc: Dict[str, Any]) -> Dict[str, Any]:
         "y": int(sc.get("y0", 0x0B8200)), "f": int(sc.get("f0", 0)) & 0xFF,
         "imr0": int(sc.get("imr0", 0)) & 0xFF, "isr0": int(sc.get("isr0", 0)) & 0xFF,
         "mti": int(sc.get("mti", 0)), "sti": int(sc.get("sti", 0)), "strobe": True,
-        "win_lo": R.STACK_TOP - R.STACK_WINDOW, "win_hi": R.STACK_TOP,
+        "win_lo": R.STACK_TOP - R.stack_window(sc), "win_hi": R.STACK_TOP,
         "steps": int(sc["steps"]), "events": sc.get("events", []),
     }
 
